@@ -240,6 +240,33 @@ func run(c *h.Ctx, cs Case) {
 	if err := add(meta.NewMeta(), cs, "x", bad); err == nil {
 		c.Fail("C19/bad-key-accepted/add", "AddEncrypted accepted a bad key (%d bytes, nil=%v)", len(bad), cs.BadNil)
 	}
+	// the same bad key through every other way of adding an encrypted value: the four token options
+	{
+		iss0, aud0 := keys.Principal(0).DID, keys.Principal(1).DID
+		secretIn := func(r reader) bool {
+			for _, get := range []func() ([]byte, error){func() ([]byte, error) { return r.GetBytes("x") }} {
+				if b, err := get(); err == nil && len(cs.Plain) >= 4 && bytes.Contains(b, cs.Plain) {
+					return true
+				}
+			}
+			return false
+		}
+		for _, asBytes := range []bool{false, true} {
+			var dopt delegation.Option
+			var iopt invocation.Option
+			if asBytes {
+				dopt, iopt = delegation.WithEncryptedMetaBytes("x", cs.Plain, bad), invocation.WithEncryptedMetaBytes("x", cs.Plain, bad)
+			} else {
+				dopt, iopt = delegation.WithEncryptedMetaString("x", string(cs.Plain), bad), invocation.WithEncryptedMetaString("x", string(cs.Plain), bad)
+			}
+			if d, err := delegation.New(iss0, aud0, command.MustParse("/foo"), policy.Policy{}, dopt); err == nil {
+				c.Fail("C19/bad-key-accepted/option/dlg", "delegation.WithEncryptedMeta(bytes=%v) accepted a bad key (%d bytes, nil=%v); the value is stored in clear: %v", asBytes, len(bad), cs.BadNil, secretIn(d.Meta()))
+			}
+			if iv, err := invocation.New(iss0, aud0, command.MustParse("/foo"), []cid.Cid{}, iopt); err == nil {
+				c.Fail("C19/bad-key-accepted/option/inv", "invocation.WithEncryptedMeta(bytes=%v) accepted a bad key (%d bytes, nil=%v); the value is stored in clear: %v", asBytes, len(bad), cs.BadNil, secretIn(iv.Meta()))
+			}
+		}
+	}
 	if err := m.AddEncrypted("n", 42, cs.Key); err == nil {
 		c.Fail("C19/non-encryptable-accepted", "AddEncrypted accepted an int")
 	}
